@@ -110,6 +110,57 @@ def c07_checks(sc, tr):
     sc.loop.on_deadlock = deadlock
 
 
+# ---------------------------------------------------------------------------------------------------------- C02
+def c02_checks(sc, tr):
+    """exit status / reason of runs closed by the epilogue, and what the blocking call raises"""
+    I, w, eng = sc.I, sc.w, sc.eng
+    rei = I.P.class_info("bluesky.utils", "RunEngineInterrupted")
+    control = [I.P.class_info("bluesky.utils", n) for n in ("RequestAbort", "RequestStop", "PlanHalt", "FailedPause")]
+
+    def is_control(e):
+        return any((isinstance(e, Obj) and e.cls.issubclass(c)) or e is c for c in control) or I.exc_isinstance(e, "CancelledError")
+
+    def causes():
+        """statuses licensed by what happened during this call"""
+        allowed = {}
+        if "stop" in tr.terminators:
+            allowed["success"] = "RE.stop()"
+        if tr.terminators & {"abort", "halt"}:
+            allowed["abort"] = "RE.abort() / RE.halt()"
+        if tr.failed_pause or (tr.nonresumable_seen and tr.interrupters):
+            allowed["abort"] = "pause / suspension in a non-resumable section"
+        if tr.plan_outcome == "returned":
+            allowed["success"] = "normal completion"
+        if tr.plan_outcome == "raised" and not is_control(tr.plan_exc):
+            allowed["fail"] = "unhandled exception"
+        return allowed
+
+    def check(kind, *a):
+        if kind == "close_run" and "exit_status" in a[1].kwargs:
+            b = a[0]
+            allowed = causes()
+            info = {"status": b.stop["exit_status"], "reason": str(b.stop["reason"]), "allowed": sorted(allowed), "requests": list(sc.requests),
+                    "plan": tr.plan_outcome, "replay": "lifecycle.replay"}
+            ok = b.stop["exit_status"] in allowed
+            if ok and b.stop["exit_status"] == "fail":
+                args = tr.plan_exc.attrs.get("args", ()) if isinstance(tr.plan_exc, Obj) else ()
+                ok = b.stop["reason"] == (str(args[0]) if len(args) == 1 else "")
+            if ok and b.stop["exit_status"] == "abort" and tr.terminators == {"abort"} and not tr.failed_pause and not tr.nonresumable_seen:
+                ok = b.stop["reason"] == "because"
+            w.check(f"{REQ}._run#ensures[a run still open at the end is closed with the exit status and reason of how the plan ended]", ok, info)
+        if kind == "returned" and a[0] in ("__call__", "resume", "abort", "stop", "halt"):
+            name, r = a
+            if tr.plan_outcome == "raised" and not is_control(tr.plan_exc) and eng.state == "idle" and name in ("__call__", "resume"):
+                # failure: the call re-raises the unhandled exception itself
+                w.check(f"{REQ}.{name}#raises[after a failure the unhandled exception itself is re-raised]", r[0] == "raise" and r[1] is tr.plan_exc,
+                        {"call": name, "raised": repr(r[1]) if r[0] == "raise" else None, "requests": list(sc.requests), "replay": "lifecycle.replay"})
+            if name in ("__call__", "resume") and (tr.terminators or tr.failed_pause) and eng.state == "idle" and not (tr.plan_outcome == "raised" and not is_control(tr.plan_exc)):
+                w.check(f"{REQ}.{name}#raises[after an interruption RunEngineInterrupted is raised]",
+                        r[0] == "raise" and isinstance(r[1], Obj) and r[1].cls.issubclass(rei),
+                        {"call": name, "result": repr(r), "requests": list(sc.requests), "plan": tr.plan_outcome, "replay": "lifecycle.replay"})
+    tr.checks.append(check)
+
+
 # ---------------------------------------------------------------------------------------------------------- C08
 def c08_checks(sc, tr):
     I, w, eng = sc.I, sc.w, sc.eng
